@@ -373,7 +373,11 @@ def emit_storefor(u, P, with_builditem=False):
         build_variant = [Fn('get', emit_name='get__build', props=P, ret='r',
                             sig_rewrites=[('R-request', r'item: impl Request<T>', "item: &BuildItem<'_, T>")],
                             rewrites=[('R-request', r'item\.to_handle\(self\)', b_req)],
-                            ensures=get_ens('__build'))]
+                            ensures=get_ens('__build')),
+                         Fn('get_mut', emit_name='get_mut__build', props=P, ret='r',
+                            sig_rewrites=[('R-request', r'item: impl Request<T>', "item: &BuildItem<'_, T>")],
+                            rewrites=[('R-request', r'item\.to_handle\(self\)', b_req)],
+                            ensures=get_mut_ens('__build'))]
     fns = [
         Fn('store', props=P, ret='r', ensures=[('view', 'r@ == self.view_store()')]),
         Fn('store_mut', props=P, ret='r',
